@@ -103,3 +103,37 @@ def rand_numeric(rng: random.Random, shape=(), kind="int"):
     if rng.random() < 0.4:
         return arr.tolist()
     return arr
+
+
+def shape_pairs():
+    """All ordered pairs of SHAPES that broadcast with each other (deterministic order)."""
+    out = []
+    for a in SHAPES:
+        for b in SHAPES:
+            try:
+                numpy.broadcast_shapes(a, b)
+            except ValueError:
+                continue
+            out.append((a, b))
+    return out
+
+
+def maybe_view(rec, rng, reg, prob=0.2):
+    """With some probability replace a >= 2-d polynomial register by a view whose axes are permuted in memory
+    (p.T / transpose): a legitimate public object that is not C-contiguous."""
+    import numpoly
+    from .actions import gather_map
+    obj = rec.obj(reg)
+    if not isinstance(obj, numpoly.ndpoly) or obj.ndim < 2 or rng.random() >= prob:
+        return reg
+    nd = obj.ndim
+    perm = list(range(nd))
+    while perm == list(range(nd)):
+        rng.shuffle(perm)
+    inv = [perm.index(i) for i in range(nd)]
+    # transpose there and back through two different permutations so that shape is preserved but memory order is not
+    params = {"fn": "transpose_method", "p": {"axes": perm}, "spelling": "numpoly"}
+    v = rec.do("move", [reg], gather=gather_map(params, [obj.shape]), model=[], prop="C09", **params)
+    if not v:
+        return reg
+    return v[0]
